@@ -1029,11 +1029,18 @@ impl TypeEntry {
                         let variant_name =
                             format_ident!("{}", variant.ident_name.as_ref().unwrap());
                         let ii = (0..type_ids.len()).map(syn::Index::from);
+                        let args = if type_ids.len() != 1 {
+                            quote! { #( value.#ii, )* }
+                        } else {
+                            // A single-item tuple variant holds the tuple
+                            // itself.
+                            quote! { value }
+                        };
                         Some(quote! {
                             impl ::std::convert::From<#variant_type_ident> for #type_name {
                                 fn from(value: #variant_type_ident) -> Self {
                                     Self::#variant_name(
-                                        #( value.#ii, )*
+                                        #args
                                     )
                                 }
                             }
